@@ -691,6 +691,7 @@ func rulesC01(c *Ctx) {
 	// statement laid out with CR or CRLF must parse
 	crfoldRule(c, "C01.crfold")
 	intWidthC01(c)
+	parseFreshRule(c, "C01.parsefresh")
 	// duration literals: a legal spelling (decimal digits, any unit of the table,
 	// a total that fits) must not be rejected or misread
 	importRules(c, rulesC08, "C08.", "C01.duration-", func(r string) bool {
